@@ -422,8 +422,7 @@ class World:
                 fh.set_handler(ConditionCode[cond], FHC[code])
         suser, duser = RecUser(self.log, "S", self.src_fs), RecUser(self.log, "D", self.dst_fs)
         self.seq_provider = SeqCountProvider(c["seqw"])
-        for _ in range(c["seq_start"]):
-            self.seq_provider.get_and_increment()
+        self.seq_provider.count = c["seq_start"]
         self.src_ctp, self.dst_ctp = _CTP(c["check_ivl_ms"]), _CTP(c["check_ivl_ms"])
         src = SourceHandler(
             LocalEntityCfg(self.src_id, indcfg(), sfh),
